@@ -887,6 +887,13 @@ brk('c19_report_sets_crossed', 'C19', REF, '''        ExpressionReferences {
             functions: variables,
         }''')
 brk('c19_variables_skips_first', 'C19', REF, '''        self.variables.iter().copied().collect()''', '''        self.variables.iter().copied().skip(1).collect()''')
+brk('c14_key_from_float', 'C14', OBJ, '''            Value::Bool(v) => Ok(Key::Bool(v)),
+            _ => Err(self),''', '''            Value::Bool(v) => Ok(Key::Bool(v)),
+            Value::Float(v) if v.fract() == 0.0 && v.abs() < 9e15 => Ok(Key::Int(v as i64)),
+            _ => Err(self),''')
+brk('c13_literal_uint_as_int', 'C13', OBJ, '''            Val::UInt(u) => Value::UInt(u),''', '''            Val::UInt(u) if u <= i64::MAX as u64 => Value::Int(u as i64),
+            Val::UInt(u) => Value::UInt(u),''')
+brk('c18_key_text_quoted', 'C18', OBJ, '''            Key::String(v) => write!(f, "{}", v),''', '''            Key::String(v) => write!(f, "\\"{}\\"", v),''')
 
 
 
